@@ -194,6 +194,8 @@ def generate(unit_dir, mustfail=False, mutate=None, variant=None, template='unit
             raw = rf.text[a:b]
             drop = tuple(o['dropderive'].split(',')) if o.get('dropderive') else ()
             txt = transform.strip_attrs_and_vis(raw, drop_derives=drop, plain=plain)
+            if kind == 'const' and not plain:
+                txt = re.sub(r':\s*&\s*str\b', ": &'static str", txt, count=1)      # R1: a const's elided lifetime is spelled out for Verus
             txt = publicize(txt, kind)
             if o.get('derive'):
                 txt = '#[derive(%s)]\n' % o['derive'].replace(',', ', ') + re.sub(r'#\[derive\([^)]*\)\]\s*', '', txt)
